@@ -12,7 +12,7 @@ PROPS = ["C12"]
 MANIFEST = {
     "C12": dict(
         technique="Lean 4 proof: two-stage implementation (rewrite to an fmt string + slot table, then a model of fmt's vformat and string specs) equals direct substitution, by induction over the pattern; loop/`splitOn` equivalence for multi-line; extraction of the attribute tables; differential correspondence on the real PatternFormatter and backend with an independent reference oracle",
-        text="Machine-checked proof (Lean 4) that for every pattern that is a list of literal chunks and %(attr[:spec]) fields (each attribute at most once, specs [[fill]align][width][.precision], any literal text free of '%(' and of braces) and every attribute valuation, the model of PatternFormatter (in-place rewrite to '{:spec}', order_index slots, lazily filled arguments, fmt's parse_format_string / parse_format_specs / write_padded for strings) returns the direct substitution plus a newline; that the constructor accepts every such pattern and throws exactly at the first field with an unknown name or without a closing parenthesis; that the multi-line loop yields msg.splitOn('\\n') after removing at most one trailing newline (option on, no named args) and one statement otherwise; that MacroMetadata's file name / line / full path / short location are the expected pieces of 'dir/base:line'; and that the runtime-metadata split recovers message, file:line and function. Literal braces (finding F7) are outside the theorem: the negation of the unrestricted statement is proved with the witness '%(message) {lit}'. Tied to the code by extracting the five attribute tables, 30 structural facts, the default pattern and the separator and re-proving by `decide` that they are the model's, and by running the real PatternFormatter / ManualBackendWorker on generated patterns, values and messages (malformed stream included) and diffing every returned line, error kind and sink statement against the model, while an independent C++ reference substitution judges the property itself.",
+        text="Machine-checked proof (Lean 4) that for every pattern that is a list of literal chunks and %(attr[:spec]) fields (each attribute at most once, specs [[fill]align][width][.precision], any literal text free of '%(' and of braces) and every attribute valuation, the model of PatternFormatter (in-place rewrite to '{:spec}', order_index slots, lazily filled arguments, fmt's parse_format_string / parse_format_specs / write_padded for strings) returns the direct substitution plus a newline; that this holds for every call of a sequence of calls through one formatter instance (the _args member persists between calls: the outcome of a call is proved independent of the calls handled before, so %(time) is the timestamp formatter's text for the statement's own timestamp — the first call, repeated timestamps and timestamp 0 included; the variant that refreshes the time slot only when the timestamp differs from a remembered one initialised to 0 is refuted by a decided witness); that the constructor accepts every such pattern and throws exactly at the first field with an unknown name or without a closing parenthesis; that the multi-line loop yields msg.splitOn('\\n') after removing at most one trailing newline (option on, no named args) and one statement otherwise; that MacroMetadata's file name / line / full path / short location are the expected pieces of 'dir/base:line'; and that the runtime-metadata split recovers message, file:line and function. Literal braces (finding F7) are outside the theorem: the negation of the unrestricted statement is proved with the witness '%(message) {lit}'. Tied to the code by extracting the five attribute tables, 30 structural facts, the default pattern and the separator and re-proving by `decide` that they are the model's, and by running the real PatternFormatter / ManualBackendWorker on generated patterns, values and messages (malformed stream included; timestamp sequences 0,0,t,0 / t,t,t' / decreasing through one formatter with %(time) with and without width/alignment, every call observed as the last call of a fresh formatter) and diffing every returned line, error kind and sink statement against the model, while an independent C++ reference substitution judges the property itself.",
         note="fmt's width is modelled for ASCII only; spec types s/?/p and dynamic width are outside the modelled subset (reported as unsupported, not compared); the empty pattern formats to the empty string (documented special case); with named arguments a message is never split (pinned by quill's own tests). Finding F7 (brace in literal pattern text) is a known-finding candidate.",
         ref="§5 C12, §7 F7"),
 }
@@ -26,6 +26,9 @@ THEOREMS = [
     "Pattern.C12_multiline_on", "Pattern.C12_multiline_off", "Pattern.multiline_named_args_not_split",
     "Pattern.C12_statements_partial", "Pattern.C12_metadata_views", "Pattern.joinNamed_eq",
     "Pattern.C12_runtime_metadata", "Pattern.C12_runtime_metadata_views",
+    "Pattern.C12_call_independent_of_earlier_calls", "Pattern.C12_every_call_eq_substitution_partial",
+    "Pattern.C12_time_function_of_timestamp", "Pattern.C12_first_call_timestamp_zero", "Pattern.C12_memoised_time_fails",
+    "Pattern.fill_persist", "Pattern.run_false", "Pattern.formatCalls_eq",
     "Pattern.parseSpec_print", "Pattern.generate_items", "Pattern.vfmt_items", "Pattern.fillArgs_get",
     "Pattern.multiLine_eq_splitOn",
     "Obligations.pattern_extraction_complete", "Obligations.pattern_enum", "Obligations.pattern_arg_names",
@@ -171,7 +174,7 @@ def run(prop, tier):
     ck = vlib.Check(prop, tier, level="proof")
     ck.assumptions = [
         "the model of fmt (parse_format_string, parse_replacement_field, parse_format_specs for string arguments, write_padded) renders the bundled fmt for ASCII text and the spec subset [[fill]align][width][.precision]; spec types s/?/p and dynamic width/precision are reported as unsupported and not compared",
-        "attribute values are byte strings without NUL; the time attribute is whatever TimestampFormatter returns (C13's subject)",
+        "attribute values are byte strings without NUL; the time attribute is whatever TimestampFormatter returns for the statement's own timestamp (C13's subject): the reference is a fresh TimestampFormatter per text, the model takes the text as a function tf of the timestamp",
         "source locations have the form path:line with fewer than 65536 bytes (MacroMetadata stores uint16_t offsets)",
         "patterns have at most sixteen fields (more is undefined behaviour in the constructor: _args written out of bounds)",
     ]
@@ -253,7 +256,8 @@ def run(prop, tier):
         "traces_validated_against_impl": acc.cases - acc.unsupported - acc.out_of_model,
         "distinct_nontrivial": len(acc.nontrivial),
         "distinct_cases": len(acc.distinct),
-        "rule": "one case = one (pattern, attribute values) pair formatted by a freshly constructed real PatternFormatter, or one log call "
+        "rule": "one case = one (pattern, attribute values, timestamps of the earlier calls) triple: a freshly constructed real PatternFormatter "
+                "handles the earlier calls (decoy values) and then the observed one; or one log call "
                 "(pattern, option, kind, message) through the real backend; non-trivial iff (fmt) the pattern has >= 2 fields, a spec and "
                 "formats to a line, or (be) the call yields >= 2 statements through a pattern with a field; distinct by full input text",
         "samples": acc.samples,
